@@ -54,3 +54,153 @@ def units(tier):
         add(["S2", "S1", "R1"], 0, T=2)
         add(["X", "S2", "L", "Y"], 1)
     return us
+
+
+# ---- Layer A: one synchronous step on an arbitrary stream state (clone counters UNBOUNDED symbolic ints) -----
+def mem_close_step(sym, cov, op, nbuf, nws, nwr):
+    """state: open_send/receive_channels = (this handle open ? 1 : 0) + a symbolic number of other open clones;
+    nbuf buffered items, nws parked senders, nwr blocked receivers (R: receivers waiting => buffer empty and no
+    parked sender; parked senders => buffer full).  One operation on one handle; counters and error classes must
+    follow the statement."""
+    import math
+
+    import anyio
+    from anyio import BrokenResourceError, ClosedResourceError, EndOfStream, WouldBlock
+    from anyio.streams.memory import MemoryObjectReceiveStream, MemoryObjectSendStream, _MemoryObjectStreamState
+    from symx.core import chk
+    from symx.vloop import VLoop
+    from asyncio import events
+
+    loop = VLoop()
+    events._set_running_loop(loop)
+    try:
+        other_tx = sym.int("other_send_clones", 0, 1 << 30)
+        other_rx = sym.int("other_receive_clones", 0, 1 << 30)
+        mine_closed = sym.bool("this_handle_closed")
+        sym.assume(nwr == 0 or (nbuf == 0 and nws == 0))
+        maxbuf = nbuf if nws > 0 else sym.int("max_buffer_size", nbuf, nbuf + 2)
+        st = _MemoryObjectStreamState(max_buffer_size=maxbuf)
+        side = "tx" if op in ("tx.close", "tx.clone", "send_nowait") else "rx"
+        h = MemoryObjectSendStream(st) if side == "tx" else MemoryObjectReceiveStream(st)
+        if mine_closed:
+            h._closed = True
+        mine_open = 0 if mine_closed else 1
+        st.open_send_channels = other_tx + (mine_open if side == "tx" else 0)
+        st.open_receive_channels = other_rx + (mine_open if side == "rx" else 0)
+        for i in range(nbuf):
+            st.buffer.append(("buf", i))
+        s_evs, r_evs = [], []
+        for i in range(nws):
+            e = anyio.Event()
+            st.waiting_senders[e] = ("parked", i)
+            s_evs.append(e)
+
+        pcs = [sym.bool("receiver%d_pending_cancellation" % i) if op == "send_nowait" else False for i in range(nwr)]
+
+        class _TI:  # receiver task info stand-in with a symbolic "has a pending cancellation" flag
+            def __init__(self, flag):
+                self.flag = flag
+
+            def has_pending_cancellation(self):
+                return self.flag
+
+        from anyio.streams.memory import _MemoryObjectItemReceiver
+
+        recvs = []
+        for i in range(nwr):
+            e = anyio.Event()
+            r = _MemoryObjectItemReceiver.__new__(_MemoryObjectItemReceiver)
+            r.task_info = _TI(pcs[i])
+            st.waiting_receivers[e] = r
+            r_evs.append(e)
+            recvs.append(r)
+        tx0, rx0 = st.open_send_channels, st.open_receive_channels
+        raised = None
+        result = None
+        try:
+            if op in ("tx.close", "rx.close"):
+                h.close()
+            elif op in ("tx.clone", "rx.clone"):
+                result = h.clone()
+            elif op == "send_nowait":
+                h.send_nowait("new")
+            else:
+                result = h.receive_nowait()
+        except (ClosedResourceError, BrokenResourceError, EndOfStream, WouldBlock) as e:
+            raised = e
+        stat = st.statistics()
+        chk(stat.open_send_streams == st.open_send_channels and stat.open_receive_streams == st.open_receive_channels, "statistics-open-counts")
+        if op in ("tx.close", "rx.close"):
+            chk(raised is None, "close-raised", repr(raised))
+            want_tx = tx0 - (1 if (side == "tx" and not mine_closed) else 0)
+            want_rx = rx0 - (1 if (side == "rx" and not mine_closed) else 0)
+            chk(st.open_send_channels == want_tx and st.open_receive_channels == want_rx, "clone-counter-wrong-after-close",
+                {"before": [tx0, rx0], "after": [st.open_send_channels, st.open_receive_channels], "already_closed": mine_closed})
+            if side == "tx" and not mine_closed and want_tx == 0:
+                chk(all(e.is_set() for e in r_evs), "last-send-clone-closed-but-receiver-not-woken")
+                cov.hit("A:last-send-clone-wakes-receivers", nwr > 0)
+            elif side == "tx":
+                chk(not any(e.is_set() for e in r_evs), "receiver-woken-although-send-side-still-open")
+            if side == "rx" and not mine_closed and want_rx == 0:
+                chk(all(e.is_set() for e in s_evs), "last-receive-clone-closed-but-sender-not-woken")
+                cov.hit("A:last-receive-clone-wakes-senders", nws > 0)
+            elif side == "rx":
+                chk(not any(e.is_set() for e in s_evs), "sender-woken-although-receive-side-still-open")
+        elif op in ("tx.clone", "rx.clone"):
+            if mine_closed:
+                chk(isinstance(raised, ClosedResourceError), "clone-of-closed-handle-accepted", repr(raised))
+                chk((st.open_send_channels, st.open_receive_channels) == (tx0, rx0), "counter-changed-by-refused-clone")
+            else:
+                chk(raised is None, "clone-refused", repr(raised))
+                chk(st.open_send_channels == tx0 + (1 if side == "tx" else 0) and st.open_receive_channels == rx0 + (1 if side == "rx" else 0), "clone-counter-wrong-after-clone")
+                result._closed = True  # silence the unclosed-stream warning of the throw-away clone
+        elif op == "send_nowait":
+            if mine_closed:
+                chk(isinstance(raised, ClosedResourceError), "send-on-closed-handle-not-rejected", repr(raised))
+            elif rx0 == 0:
+                chk(isinstance(raised, BrokenResourceError), "send-without-receivers-not-broken", repr(raised))
+                cov.hit("A:broken")
+            else:
+                chk(not isinstance(raised, (BrokenResourceError, ClosedResourceError)), "send-broken-or-closed-although-open", repr(raised))
+                live = [i for i in range(nwr) if not pcs[i]]
+                if live:
+                    k = live[0]
+                    chk(raised is None and r_evs[k].is_set() and recvs[k].item == "new", "item-not-handed-to-first-live-waiting-receiver", {"first_live": k})
+                    chk(all(not hasattr(recvs[i], "item") for i in range(nwr) if i != k), "item-handed-to-more-than-one-receiver")
+                    cov.hit("A:receiver-with-pending-cancellation-skipped", k > 0)
+                elif nbuf < maxbuf:
+                    chk(raised is None and len(st.buffer) == nbuf + 1, "item-not-buffered-although-room")
+                else:
+                    chk(isinstance(raised, WouldBlock), "send_nowait-did-not-block-on-full-buffer", repr(raised))
+            chk(len(st.buffer) <= maxbuf, "buffer-over-max")
+        else:
+            if mine_closed:
+                chk(isinstance(raised, ClosedResourceError), "receive-on-closed-handle-not-rejected", repr(raised))
+            elif nbuf > 0 or nws > 0:
+                chk(raised is None, "receive-failed-although-item-available", repr(raised))
+                chk(result == (("buf", 0) if nbuf > 0 else ("parked", 0)), "receive-wrong-item", repr(result))
+                if nws > 0:
+                    chk(s_evs[0].is_set(), "parked-sender-not-released")
+            elif tx0 == 0:
+                chk(isinstance(raised, EndOfStream), "no-end-of-stream-although-send-side-closed", repr(raised))
+                cov.hit("A:end-of-stream")
+            else:
+                chk(isinstance(raised, WouldBlock), "receive_nowait-wrong-error", repr(raised))
+            chk(not (isinstance(raised, EndOfStream) and (tx0 > 0 or nbuf > 0 or nws > 0)), "end-of-stream-with-open-senders-or-items")
+        h._closed = True
+    finally:
+        events._set_running_loop(None)
+        loop.close()
+
+
+MUST_REACH = MUST_REACH + ["A:receiver-with-pending-cancellation-skipped", "A:last-send-clone-wakes-receivers", "A:last-receive-clone-wakes-senders", "A:broken", "A:end-of-stream"]
+_units_b = units
+
+
+def units(tier):  # noqa: F811
+    us = _units_b(tier)
+    for op in ("tx.close", "rx.close", "tx.clone", "rx.clone", "send_nowait", "receive_nowait"):
+        for (nbuf, nws, nwr) in ((0, 0, 0), (1, 0, 0), (2, 0, 0), (1, 1, 0), (0, 1, 0), (0, 2, 0), (0, 0, 1), (0, 0, 2)):
+            us.append({"name": "A %s buf=%d parked=%d waiting=%d" % (op, nbuf, nws, nwr), "fn": mem_close_step,
+                       "params": {"op": op, "nbuf": nbuf, "nws": nws, "nwr": nwr}, "budget_s": 60})
+    return us
